@@ -1,15 +1,16 @@
 (* ProofsJson.v — C17: parse.Value reads back every JSON document of a fragment, for all nesting
    depths and widths: null, true, false, strings over the printable ASCII characters other than
-   the quote and the backslash, arrays and objects (compact printing).  Numbers, escapes and
-   free layout are outside this theorem. *)
-From Ucfg Require Import Base ParseInt Consts Field Tree F64 ParseValue ProofsFlags ProofsParse.
+   the quote and the backslash, integers of the whole int64 and uint64 ranges (decimal), arrays
+   and objects (compact printing).  Floats, escapes, non-ASCII text and free layout are outside
+   this theorem. *)
+From Ucfg Require Import Base ParseInt Consts Field Tree F64 ParseValue ProofsFlags ProofsParse ProofsDec.
 From Coq Require Import Lia.
 Local Open Scope nat_scope.
 Local Open Scope string_scope.
 
 (** * the fragment *)
 Inductive jv :=
-| JNull | JBool (b : bool) | JStr (s : string)
+| JNull | JBool (b : bool) | JStr (s : string) | JInt (z : Z)
 | JArr (l : list jv) | JObj (m : list (string * jv)).
 
 Notation q := (""""%char) (only parsing).
@@ -20,6 +21,7 @@ Fixpoint print (v : jv) : string :=
   | JBool true => "true"
   | JBool false => "false"
   | JStr s => String q (s +++ String q "")
+  | JInt z => dec z
   | JArr l =>
     String "["%char
       ((fix elems (l : list jv) : string :=
@@ -60,6 +62,7 @@ Fixpoint data (v : jv) : pv :=
   | JNull => PNil
   | JBool b => PBool b
   | JStr s => PStr s
+  | JInt z => if (0 <=? z)%Z then PUint z else PInt z    (* ParseUint is tried first *)
   | JArr [] => PNil
   | JArr l => PArr (map data l)
   | JObj [] => PNil
@@ -90,6 +93,7 @@ Fixpoint safe_str (s : string) : bool :=
 Fixpoint wf (v : jv) : bool :=
   match v with
   | JStr s => safe_str s
+  | JInt z => ((- 9223372036854775808 <=? z) && (z <=? 18446744073709551615))%Z
   | JArr l => (fix all (l : list jv) : bool := match l with [] => true | x :: r => wf x && all r end) l
   | JObj m => (fix all (l : list (string * jv)) : bool :=
                  match l with [] => true | (k, x) :: r => safe_str k && wf x && all r end) m
@@ -233,6 +237,92 @@ Proof.
   cbn [pbind fst snd]. rewrite Ht, Hp. reflexivity.
 Qed.
 
+Lemma space_suffix_ascii a r :
+  is_space a = false -> (byte_of a <? 128)%N = true -> space_suffix_rev (String a r) = O.
+Proof.
+  intros Hs Hb. unfold space_suffix_rev. rewrite Hs.
+  assert ((byte_of a =? 133)%N = false) as E1 by (apply N.eqb_neq; apply N.ltb_lt in Hb; lia).
+  assert ((byte_of a =? 160)%N = false) as E2 by (apply N.eqb_neq; apply N.ltb_lt in Hb; lia).
+  assert ((byte_of a =? 128)%N = false) as E3 by (apply N.eqb_neq; apply N.ltb_lt in Hb; lia).
+  assert ((128 <=? byte_of a)%N = false) as E4 by (apply N.leb_gt; apply N.ltb_lt in Hb; lia).
+  assert ((byte_of a =? 168)%N = false) as E5 by (apply N.eqb_neq; apply N.ltb_lt in Hb; lia).
+  assert ((byte_of a =? 169)%N = false) as E6 by (apply N.eqb_neq; apply N.ltb_lt in Hb; lia).
+  assert ((byte_of a =? 175)%N = false) as E7 by (apply N.eqb_neq; apply N.ltb_lt in Hb; lia).
+  assert ((byte_of a =? 159)%N = false) as E8 by (apply N.eqb_neq; apply N.ltb_lt in Hb; lia).
+  destruct r as [|b r2]; [reflexivity|]. rewrite E1, E2. rewrite andb_false_r. cbv iota.
+  destruct r2 as [|e r3]; [reflexivity|]. rewrite E3, E4, E5, E6, E7, E8.
+  rewrite ?andb_false_r, ?andb_false_l. cbn [andb orb]. rewrite ?andb_false_r. reflexivity.
+Qed.
+
+
+(* a string of plain characters (no white space, ASCII) is not trimmed *)
+Lemma rev_app_head_plain : forall r a acc,
+  (is_space a = false /\ (byte_of a <? 128)%N = true) ->
+  (fix all (s : string) : Prop := match s with EmptyString => True | String k t => (is_space k = false /\ (byte_of k <? 128)%N = true) /\ all t end) r ->
+  exists c t, rev_app r (String a acc) = String c t /\ is_space c = false /\ (byte_of c <? 128)%N = true.
+Proof.
+  induction r as [|b r' IH]; intros a acc Pa Pr.
+  - exists a, acc. split; [reflexivity|exact Pa].
+  - destruct Pr as [Pb Pr']. cbn [rev_app]. apply IH; assumption.
+Qed.
+
+(** * integer literals *)
+Lemma num_start_neq a k : num_start a = true -> num_start k = false -> Ascii.eqb a k = false.
+Proof.
+  intros Ha Hk. destruct (Ascii.eqb a k) eqn:E; [apply Ascii.eqb_eq in E; subst k; congruence|reflexivity].
+Qed.
+
+Lemma num_start_plain a : num_start a = true -> is_space a = false /\ (byte_of a <? 128)%N = true.
+Proof.
+  unfold num_start, is_dec_digit. intro H. apply Bool.orb_true_iff in H. destruct H as [H|H].
+  - apply andb_prop in H. destruct H as [H1 H2]. apply N.leb_le in H1. apply N.leb_le in H2.
+    split; [|apply N.ltb_lt; lia].
+    unfold is_space. cbv zeta.
+    assert ((byte_of a <=? 13)%N = false) as E1 by (apply N.leb_gt; lia).
+    assert ((byte_of a =? 32)%N = false) as E2 by (apply N.eqb_neq; lia).
+    rewrite E1, E2, Bool.andb_false_r. reflexivity.
+  - apply Ascii.eqb_eq in H. subst a. split; reflexivity.
+Qed.
+
+Lemma digit_num_start a : is_dec_digit a = true -> num_start a = true.
+Proof. intro H. unfold num_start. rewrite H. reflexivity. Qed.
+
+(* stop sets that contain no digit and no minus sign *)
+Definition num_clear (stop : string) : Prop := forall a, num_start a = true -> mem_ascii a stop = false.
+
+Lemma word_clear_digits r stop : num_clear stop -> all_digits r = true -> word_clear r stop = true.
+Proof.
+  intros Hc. induction r as [|a t IH]; [reflexivity|]. cbn [all_digits word_clear]. intro H.
+  apply andb_prop in H. destruct H as [Ha Ht]. rewrite (Hc a (digit_num_start a Ha)), (IH Ht). reflexivity.
+Qed.
+
+Lemma word_clear_dec z stop : num_clear stop -> word_clear (dec z) stop = true.
+Proof.
+  intro Hc. destruct (dec_head z) as [a [r [E [Ha Hr]]]]. rewrite E. cbn [word_clear].
+  rewrite (Hc a Ha), (word_clear_digits r stop Hc Hr). reflexivity.
+Qed.
+
+Lemma dec_trim z : trim_space (dec z) = dec z.
+Proof.
+  destruct (dec_head z) as [a [r [E [Hn Hr]]]]. unfold trim_space. rewrite E.
+  destruct (num_start_plain a Hn) as [Hs Hb]. rewrite (trim_left_ascii a r Hs Hb). unfold trim_right.
+  assert ((fix all (s : string) : Prop := match s with EmptyString => True | String k t => (is_space k = false /\ (byte_of k <? 128)%N = true) /\ all t end) r) as Pr.
+  { clear -Hr. induction r as [|b r' IH]; [exact I|]. cbn [all_digits] in Hr. apply andb_prop in Hr. destruct Hr as [Hb Hr'].
+    split; [apply num_start_plain; apply digit_num_start; exact Hb|exact (IH Hr')]. }
+  destruct (rev_app_head_plain r a "" (conj Hs Hb) Pr) as [c [t [Er [Hc Hd]]]].
+  assert (srev (String a r) = String c t) as Es by exact Er.
+  rewrite Es. rewrite (trim_with_zero _ _ _ (space_suffix_ascii c t Hc Hd)). rewrite <- Es. apply srev_involutive.
+Qed.
+
+Lemma num_clear_of (stop : string) :
+  (fix all (s : string) : bool := match s with EmptyString => true | String k r => negb (num_start k) && all r end) stop = true ->
+  num_clear stop.
+Proof.
+  intros H a Ha. induction stop as [|k r IH]; [reflexivity|].
+  apply andb_prop in H. destruct H as [Hk Hr]. apply Bool.negb_true_iff in Hk.
+  cbn [mem_ascii]. rewrite (num_start_neq a k Ha Hk). exact (IH Hr).
+Qed.
+
 (** * the parser on printed documents *)
 Section Roundtrip.
   Variable cfg : pcfg.
@@ -242,7 +332,8 @@ Section Roundtrip.
 
   (* stop sets under which the three words and the structural characters are no stop characters *)
   Definition stop_ok (stop : string) : Prop :=
-    word_clear "null" stop = true /\ word_clear "true" stop = true /\ word_clear "false" stop = true.
+    word_clear "null" stop = true /\ word_clear "true" stop = true /\ word_clear "false" stop = true /\
+    num_clear stop.
 
   (* the statement for one value, at the fuel available for it *)
   Definition reads_back (f : nat) (v : jv) : Prop :=
@@ -256,8 +347,12 @@ Section Roundtrip.
 
   Lemma print_head v rest : head_ok (print v +++ rest).
   Proof.
-    destruct v as [|[|]|s|l|m]; cbn [print String.append];
-      eexists _, _; (split; [reflexivity|]); repeat split; reflexivity.
+    destruct v as [|[|]|s|z|l|m]; cbn [print String.append];
+      try (eexists _, _; (split; [reflexivity|]); repeat split; reflexivity).
+    destruct (dec_head z) as [a [r [E [Ha _]]]]. rewrite E. cbn [String.append].
+    destruct (num_start_plain a Ha) as [Hs Hb].
+    exists a, (r +++ rest). split; [reflexivity|]. split; [exact Hs|]. split; [exact Hb|].
+    split; apply (num_start_neq a _ Ha); reflexivity.
   Qed.
 
   Lemma trim_left_head s : head_ok s -> trim_left s = s.
@@ -273,7 +368,7 @@ Section Roundtrip.
     inversion F as [|? ? Hx Fr]; subst.
     destruct n as [|n']; [simpl in Hn; lia|].
     assert (arrayElemStopSet = ",]") as SS by reflexivity.
-    assert (stop_ok arrayElemStopSet) as SO by (rewrite SS; repeat split; reflexivity).
+    assert (stop_ok arrayElemStopSet) as SO by (rewrite SS; repeat split; try reflexivity; apply num_clear_of; reflexivity).
     destruct r as [|y r'].
     - (* the last element *)
       cbn [print_elems]. cbn [arr_loop_of].
@@ -311,7 +406,7 @@ Section Roundtrip.
     inversion F as [|? ? [Hk Hx] Fr]; subst. simpl in Hk, Hx.
     destruct n as [|n']; [simpl in Hn; lia|].
     assert (objValueStopSet = ",}") as SS by reflexivity.
-    assert (stop_ok objValueStopSet) as SO by (rewrite SS; repeat split; reflexivity).
+    assert (stop_ok objValueStopSet) as SO by (rewrite SS; repeat split; try reflexivity; apply num_clear_of; reflexivity).
     destruct r as [|[k2 y] r'].
     - cbn [print_mems]. cbn [String.append]. cbn [obj_loop_of].
       rewrite (trim_left_ascii """"%char _ eq_refl eq_refl).
@@ -352,11 +447,12 @@ Section JInd.
   Hypothesis Hnull : P JNull.
   Hypothesis Hbool : forall b, P (JBool b).
   Hypothesis Hstr : forall s, P (JStr s).
+  Hypothesis Hint : forall z, P (JInt z).
   Hypothesis Harr : forall l, Forall P l -> P (JArr l).
   Hypothesis Hobj : forall m, Forall (fun kv => P (snd kv)) m -> P (JObj m).
   Fixpoint jv_ind' (v : jv) : P v :=
     match v with
-    | JNull => Hnull | JBool b => Hbool b | JStr s => Hstr s
+    | JNull => Hnull | JBool b => Hbool b | JStr s => Hstr s | JInt z => Hint z
     | JArr l => Harr l ((fix go (l : list jv) : Forall P l :=
                            match l with [] => Forall_nil P | x :: r => Forall_cons x (jv_ind' x) (go r) end) l)
     | JObj m => Hobj m ((fix go (l : list (string * jv)) : Forall (fun kv => P (snd kv)) l :=
@@ -398,7 +494,7 @@ Theorem parse_print cfg :
   forall v, wf v = true -> forall f, jsize v < f -> reads_back cfg f v.
 Proof.
   intros Ha Ho Hd.
-  induction v as [|b|s|l IHl|m IHm] using jv_ind'; intros W f L stop rest [Sn [St Sf]] R;
+  induction v as [|b|s|z|l IHl|m IHm] using jv_ind'; intros W f L stop rest [Sn [St [Sf Snum]]] R;
     (destruct f as [|f']; [lia|]); rewrite parse_value_unfold;
     rewrite (trim_left_head _ (print_head _ rest)).
   - (* null *)
@@ -420,6 +516,20 @@ Proof.
     change (Ascii.eqb """"%char "{"%char) with false. change (Ascii.eqb """"%char """"%char) with true.
     rewrite Hd. cbn [andb]. rewrite app_assoc_s. cbn [String.append].
     simpl in W. rewrite (parse_dquote_safe s rest W). reflexivity.
+  - (* integers *)
+    cbn [print]. destruct (dec_head z) as [a [r [E [Hn Hr]]]].
+    assert (parse_primitive (dec z +++ rest) stop = POk (data (JInt z), rest)) as PP.
+    { apply (primitive_word (dec z) (data (JInt z)) rest stop).
+      - rewrite E. discriminate.
+      - apply word_clear_dec. exact Snum.
+      - exact R.
+      - apply dec_trim.
+      - cbn [data]. apply primitive_of_dec. cbn [wf] in W. apply andb_prop in W. destruct W as [W1 W2].
+        apply Z.leb_le in W1. apply Z.leb_le in W2. lia. }
+    rewrite E in *. cbn [String.append] in *.
+    rewrite (num_start_neq a "["%char Hn eq_refl), (num_start_neq a "{"%char Hn eq_refl),
+            (num_start_neq a """"%char Hn eq_refl), (num_start_neq a "'"%char Hn eq_refl). cbn [andb].
+    exact PP.
   - (* arrays *)
     rewrite print_arr. cbn [String.append]. change (Ascii.eqb "["%char "["%char) with true. rewrite Ha. cbn [andb].
     rewrite app_assoc_s. cbn [String.append].
@@ -476,10 +586,11 @@ Qed.
 
 Lemma jsize_le_length : forall v, jsize v <= String.length (print v).
 Proof.
-  induction v as [|b|s|l IHl|m IHm] using jv_ind'.
+  induction v as [|b|s|z|l IHl|m IHm] using jv_ind'.
   - simpl. lia.
   - destruct b; simpl; lia.
   - simpl. lia.
+  - cbn [print jsize]. destruct (dec_head z) as [a [r [E _]]]. rewrite E. cbn [String.length]. lia.
   - rewrite print_arr, jsize_arr. cbn [String.length]. rewrite length_app_s. cbn [String.length].
     pose proof (len_elems l IHl). lia.
   - rewrite print_obj, jsize_obj. cbn [String.length]. rewrite length_app_s. cbn [String.length].
@@ -493,33 +604,22 @@ Qed.
 Lemma srev_snoc x c : srev (x +++ String c "") = String c (srev x).
 Proof. unfold srev. apply rev_app_snoc. Qed.
 
-Lemma space_suffix_ascii a r :
-  is_space a = false -> (byte_of a <? 128)%N = true -> space_suffix_rev (String a r) = O.
-Proof.
-  intros Hs Hb. unfold space_suffix_rev. rewrite Hs.
-  assert ((byte_of a =? 133)%N = false) as E1 by (apply N.eqb_neq; apply N.ltb_lt in Hb; lia).
-  assert ((byte_of a =? 160)%N = false) as E2 by (apply N.eqb_neq; apply N.ltb_lt in Hb; lia).
-  assert ((byte_of a =? 128)%N = false) as E3 by (apply N.eqb_neq; apply N.ltb_lt in Hb; lia).
-  assert ((128 <=? byte_of a)%N = false) as E4 by (apply N.leb_gt; apply N.ltb_lt in Hb; lia).
-  assert ((byte_of a =? 168)%N = false) as E5 by (apply N.eqb_neq; apply N.ltb_lt in Hb; lia).
-  assert ((byte_of a =? 169)%N = false) as E6 by (apply N.eqb_neq; apply N.ltb_lt in Hb; lia).
-  assert ((byte_of a =? 175)%N = false) as E7 by (apply N.eqb_neq; apply N.ltb_lt in Hb; lia).
-  assert ((byte_of a =? 159)%N = false) as E8 by (apply N.eqb_neq; apply N.ltb_lt in Hb; lia).
-  destruct r as [|b r2]; [reflexivity|]. rewrite E1, E2. rewrite andb_false_r. cbv iota.
-  destruct r2 as [|e r3]; [reflexivity|]. rewrite E3, E4, E5, E6, E7, E8.
-  rewrite ?andb_false_r, ?andb_false_l. cbn [andb orb]. rewrite ?andb_false_r. reflexivity.
-Qed.
-
 (* the last character of a printed document *)
 Lemma print_last v : exists a r, srev (print v) = String a r /\ is_space a = false /\ (byte_of a <? 128)%N = true.
 Proof.
-  destruct v as [|[|]|s|l|m].
+  destruct v as [|[|]|s|z|l|m].
   - eexists _, _. split; [vm_compute; reflexivity|split; reflexivity].
   - eexists _, _. split; [vm_compute; reflexivity|split; reflexivity].
   - eexists _, _. split; [vm_compute; reflexivity|split; reflexivity].
   - exists """"%char, (srev (String """"%char s)). split; [|split; reflexivity].
     cbn [print]. change (String """"%char (s +++ String """"%char "")) with ((String """"%char s) +++ String """"%char "").
     apply srev_snoc.
+  - cbn [print]. destruct (dec_head z) as [a [r [E [Hn Hr]]]]. rewrite E.
+    destruct (num_start_plain a Hn) as [Hs Hb].
+    assert ((fix all (s : string) : Prop := match s with EmptyString => True | String k t => (is_space k = false /\ (byte_of k <? 128)%N = true) /\ all t end) r) as Pr.
+    { clear -Hr. induction r as [|b r' IH]; [exact I|]. cbn [all_digits] in Hr. apply andb_prop in Hr. destruct Hr as [Hb Hr'].
+      split; [apply num_start_plain; apply digit_num_start; exact Hb|exact (IH Hr')]. }
+    exact (rev_app_head_plain r a "" (conj Hs Hb) Pr).
   - exists "]"%char, (srev (String "["%char (print_elems l))). split; [|split; reflexivity].
     rewrite print_arr. change (String "["%char (print_elems l +++ "]")) with ((String "["%char (print_elems l)) +++ String "]"%char "").
     apply srev_snoc.
@@ -548,15 +648,16 @@ Proof.
   specialize (P L (if c_nocomma cfg then "" else toplevelStopSet) "").
   rewrite append_nil_r in P. rewrite P.
   - cbn [pbind fst snd]. reflexivity.
-  - destruct (c_nocomma cfg); repeat split; reflexivity.
+  - destruct (c_nocomma cfg); repeat split; try reflexivity; apply num_clear_of; reflexivity.
   - left. reflexivity.
 Qed.
 
 (* non-vacuity: a nested document of the fragment *)
 Example json_fragment_example :
-  let v := JObj [("b", JArr [JNull; JBool true; JArr []; JObj [("x y", JStr "a{b}[c],:'d")]]); ("a", JStr "")] in
+  let v := JObj [("b", JArr [JNull; JBool true; JArr []; JObj [("x y", JStr "a{b}[c],:'d")]; JInt 18446744073709551615; JInt (-9223372036854775808)]);
+                 ("a", JStr ""); ("n", JInt 0)] in
   wf v = true /\
-  print v = "{""b"":[null,true,[],{""x y"":""a{b}[c],:'d""}],""a"":""""}" /\
+  print v = "{""b"":[null,true,[],{""x y"":""a{b}[c],:'d""},18446744073709551615,-9223372036854775808],""a"":"""",""n"":0}" /\
   parse_value_with_config DefaultConfig (print v) = POk (data v) /\
-  data v = PObj [("a", PStr ""); ("b", PArr [PNil; PBool true; PNil; PObj [("x y", PStr "a{b}[c],:'d")]])].
+  data v = PObj [("a", PStr ""); ("b", PArr [PNil; PBool true; PNil; PObj [("x y", PStr "a{b}[c],:'d")]; PUint 18446744073709551615; PInt (-9223372036854775808)]); ("n", PUint 0)].
 Proof. vm_compute. repeat split; reflexivity. Qed.
